@@ -248,6 +248,17 @@ def tsan_runs(chk, cfg, seeds, nthreads, rounds):
         except pv.BuildError as e:
             chk.violation(str(e), "C02 supporting real-thread harness (%s) does not build" % impl, no_input=True, suffix="txt")
             continue
+        for scen in ("rr", "share"):
+            # finite rounds with a writer queued between two read acquisitions: must run to completion
+            cmd = [exe, scen]
+            rc, out, err = pv.run_proc(cmd, "", 60, env={"TSAN_OPTIONS": "halt_on_error=1:exitcode=66"})
+            res["runs"] += 1
+            if rc == 0 and out.startswith("ok"):
+                res["ok"] += 1
+            else:
+                chk.violation("cmd: rwlock_threads (%s implementation) %s\nstdout: %s\nstderr:\n%s" % (impl, scen, out, err[-2000:]),
+                              "C02 real-thread scenario `%s` (%s implementation): a finite set of lock/unlock rounds with a queued writer did not run to completion: %s"
+                              % (scen, impl, (out or err).strip().splitlines()[0] if (out or err).strip() else "rc=%s" % rc), suffix="txt")
         for sd in seeds:
             cmd = [exe, str(nthreads), str(rounds), str(sd), "150"]
             rc, out, err = pv.run_proc(cmd, "", 200, env={"TSAN_OPTIONS": "halt_on_error=1:exitcode=66:second_deadlock_stack=1"})
@@ -390,6 +401,12 @@ def run(chk):
     if thorough:
         chk.cov["tsan_real_threads"] = tsan_runs(chk, cfg, [chk.seed * 10 + k for k in range(3)], 12, 20000)
         if chk.violations:
+            found = True
+    else:
+        # the two queued-writer scenarios are cheap: every tier
+        nv = len(chk.violations)
+        chk.cov["real_thread_scenarios"] = tsan_runs(chk, cfg, [], 0, 0)
+        if len(chk.violations) > nv:
             found = True
 
     diffrun.conclude(chk, found, corr, thm, proof_ok and driver_ok, detail, "C02 rwlock")
